@@ -620,7 +620,9 @@ class C17(CheckBase):
             # interleave the second grid's queries with the first grid's
             for e in extra:
                 ops.insert(rng.randrange(0, len(ops) + 1), e)
-            tr['other'] = {'spec': spec2, 'path': 'other/second.gsb'}
+            # sometimes under the same file NAME in another directory
+            import posixpath
+            tr['other'] = {'spec': spec2, 'path': 'other/second.gsb' if rng.random() < 0.6 else 'other/' + posixpath.basename(path)}
         return tr
 
     @staticmethod
